@@ -61,7 +61,10 @@ def gen_cmd(rng):
     if r < 0.41:
         return "D", reg + "D"
     if r < 0.55:
-        return "y", reg + "y" + (V.motion(rng) if rng.random() < 0.65 else V.textobj(rng))
+        m_ = V.motion(rng) if rng.random() < 0.65 else V.textobj(rng)
+        if rng.random() < 0.12:
+            m_ = rng.choice(["0", "^"])        # may cover nothing (cursor already there): the register is then emptied
+        return "y", reg + "y" + m_
     if r < 0.59:
         return "yy", reg + cnt + "yy"
     if r < 0.67:
@@ -73,7 +76,7 @@ def gen_cmd(rng):
     if r < 0.83:
         return "r", cnt + "r" + rng.choice("Zq9é")
     if r < 0.90:
-        return "insert", rng.choice(["i", "a", "I", "A"]) + rng.choice(["typed", "X", "é ü", "a<b", "two words", "(", "  "]) + "<esc>"
+        return "insert", rng.choice(["i", "a", "I", "A"]) + rng.choice(["typed", "X", "é ü", "a<b", "two words", "(", "  ", "a😀b", "日本", "𠀀x", "🙂"]) + "<esc>"
     if r < 0.95:
         return "vdel", V.selection(rng) + reg + rng.choice(["d", "x", "y"])
     return "put", reg.lower() + rng.choice(["p", "P"])
@@ -188,7 +191,12 @@ def run(chk, binary):
                 if kind == "block":
                     continue
                 if reg_text(regs_before, name) == (kind, t) and not upper:
-                    continue        # the motion failed (or yanked the very same text): the register is what the history left
+                    # the motion failed (or yanked the very same text): the register is what the history left.
+                    # 0 and ^ cannot fail: where they cover nothing the register must hold nothing
+                    if (c.get("motion") or "") in ("BeginningOfLine", "BeginningOfFirstWord") and c.get("c0") == c.get("c1") and t != "" and \
+                            before[:0] == "" and (c["c0"] == 0 or before[c["c0"] - 1:c["c0"]] == "\n"):
+                        chk.violation("spec:a yank over nothing left the old text in the register", dict(case0, register_text=t, buffer=before))
+                    continue
                 piece = t
                 if upper:
                     _, old = reg_text(regs_before, name)
